@@ -15,6 +15,7 @@ import MVoro.Gen.Face
 import MVoro.Drv.Parse
 import MVoro.Drv.Geom
 import MVoro.Drv.Clip
+import MVoro.Drv.NN
 
 open MVoro MVoro.Drv
 
@@ -168,6 +169,7 @@ def handle (line : String) : String :=
       | "routes" => opRoutes args
       | "iloc" => opIloc args
       | "geom" => opGeom args
+      | "nnvisit" => (match parseTessIn args with | some (t0, rest) => opNNVisit t0 rest | none => "bad-op")
       | "clipperm" => opClipperm args
       | "cycle" => opCycle args
       | "addfar" => "-"
